@@ -198,3 +198,59 @@ Proof.
     unfold try_skip_raw. destruct (match_rust_raw (c :: tl)); [discriminate|reflexivity]. }
   rewrite Hraw, Hp. reflexivity.
 Qed.
+
+(* ---- the Lua long-bracket scanner over code segments ---- *)
+Lemma match_lua_quote : forall q tl, match_lua (qchar q :: tl) true = None.
+Proof. intros [] tl; unfold match_lua; destruct tl; reflexivity. Qed.
+
+Lemma flua_plain : forall w rest bp, plain_ok_lua w rest = true ->
+  flua (w ++ rest) O None bp = flua rest O None (bp + utf8_len w).
+Proof.
+  induction w as [|c w IH]; intros rest bp H.
+  - cbn. now rewrite N.add_0_r.
+  - cbn [plain_ok_lua] in H. apply andb_true_iff in H as [H Hrec]. apply andb_true_iff in H as [Hq Hm].
+    apply negb_true_iff in Hq, Hm. cbn [app] in *. cbn [flua].
+    destruct (match_lua (c :: w ++ rest) true); [discriminate|].
+    unfold is_quote in Hq. apply orb_false_iff in Hq as [Hdq Hsq].
+    rewrite process_impl_inert by (apply N.eqb_neq; assumption). cbn [pred].
+    rewrite IH by assumption. f_equal. unfold utf8_len. cbn [fold_right]. lia.
+Qed.
+
+Lemma flua_body : forall q b rest bp, body_ok q b = true ->
+  flua (render_body b ++ qchar q :: rest) O (Some (qdelim q)) bp =
+  flua rest O None (bp + utf8_len (render_body b) + 1).
+Proof.
+  intros q b; induction b as [|i b IH]; intros rest bp H.
+  - cbn [render_body flat_map app flua]. rewrite pi_close. cbn [pred]. f_equal. destruct q; cbn; lia.
+  - cbn [body_ok forallb] in H. apply andb_true_iff in H as [Hi Hb].
+    cbn [render_body flat_map]. fold (render_body b). rewrite <- app_assoc.
+    destruct i as [c|c]; cbn [render_item app].
+    + apply andb_true_iff in Hi as [Hnq Hnb]. apply negb_true_iff in Hnq, Hnb.
+      cbn [flua]. rewrite pi_other by assumption. cbn [pred]. rewrite IH by assumption. f_equal.
+      unfold utf8_len. cbn [fold_right]. lia.
+    + cbn [flua]. rewrite pi_esc. cbn [pred flua]. rewrite IH by assumption. f_equal.
+      unfold utf8_len. cbn [fold_right]. change (len_utf8 c_bslash) with 1. lia.
+Qed.
+
+Lemma flua_segs : forall ss rest bp, segs_ok_lua ss rest = true ->
+  flua (render_segs ss ++ rest) O None bp = flua rest O None (bp + utf8_len (render_segs ss)).
+Proof.
+  induction ss as [|s ss IH]; intros rest bp H.
+  - cbn. now rewrite N.add_0_r.
+  - cbn [render_segs flat_map]. fold (render_segs ss). rewrite <- app_assoc.
+    destruct s as [w|q b]; cbn [segs_ok_lua] in H.
+    + apply andb_true_iff in H as [Hw Hrec]. cbn [render_seg].
+      rewrite flua_plain by exact Hw. rewrite IH by exact Hrec. f_equal. rewrite utf8_len_app. lia.
+    + apply andb_true_iff in H as [H Hrec]. apply andb_true_iff in H as [Hb Htr]. apply negb_true_iff in Htr.
+      cbn [render_seg] in *. cbn [app] in *. rewrite <- app_assoc in *. cbn [app] in *.
+      cbn [flua]. rewrite match_lua_quote.
+      rewrite pi_open by (apply open_not_triple; assumption).
+      cbn [pred]. rewrite flua_body by exact Hb. rewrite IH by exact Hrec.
+      f_equal. change (qchar q :: (render_body b ++ [qchar q]) ++ render_segs ss)
+        with ([qchar q] ++ (render_body b ++ [qchar q]) ++ render_segs ss).
+      rewrite !utf8_len_app.
+      assert (Hq1 : utf8_len [qchar q] = 1) by (destruct q; reflexivity).
+      assert (Hq2 : len_utf8 (qchar q) = 1) by (destruct q; reflexivity).
+      rewrite Hq1, Hq2. lia.
+Qed.
+
